@@ -152,8 +152,7 @@ func checkC19(c *ProgCase) *Outcome {
 	usesHarness := false
 	r.Core.Walk(func(e *m.Expr) {
 		if e.K == "call" {
-			switch e.Name {
-			case "tr", "boom", "hsub", "hpair", "lz_if", "lz_and", "lz_pick", "ov":
+			if run.IsHarnessName(e.Name) {
 				usesHarness = true
 			}
 		}
